@@ -75,6 +75,9 @@ func (s *Sched) Run(fs ...func()) (panics []any) {
 		}()
 	}
 	s.active = true
+	// whatever ends the run (the horizon, a diverging replay, a failing invariant), the
+	// scheduler stops intercepting: parked threads stay parked, later calls pass through
+	defer func() { s.active = false }()
 	for {
 		// enabled threads in canonical order: the running one first (if still enabled), then ascending ids
 		var menu []int
